@@ -38,7 +38,10 @@ def prefix_value(p) -> Fraction:
         if e == e.to_integral_value():
             return Fraction(p.base) ** int(e)
         return Fraction(Decimal(p.base) ** e)
-    return Fraction(float(p.base) ** float(e))
+    try:
+        return Fraction(float(p.base) ** float(e))
+    except OverflowError:
+        return Fraction(Decimal(p.base) ** Decimal(repr(float(e))))
 
 
 def prefix_is_exact(p) -> bool:
